@@ -137,14 +137,14 @@ func runC20(p *core.Prog, r *core.Result) {
 	for _, call := range calls {
 		construct := "dawn.(*cache).once#call"
 		pos := p.InstrPos(call)
-		if !li.MustHoldClass(call, class, core.ModeW) {
+		if !p.MustHoldClassX(call, class, core.ModeW) {
 			r.Bad("R20.2", construct, pos, "the callable is invoked without the write lock: two callers can both run it for one key")
 			continue
 		}
 		// a lookup under W lock, dominating, on its miss edge, with no unlock in between
 		okRecheck := false
 		for _, lk := range lookups {
-			if !core.Dominates(lk, call) || !li.MustHoldClass(lk, class, core.ModeW) {
+			if !core.Dominates(lk, call) || !p.MustHoldClassX(lk, class, core.ModeW) {
 				continue
 			}
 			miss := p.FactsAt(call).Find(func(cond ssa.Value, val bool) bool {
@@ -176,7 +176,7 @@ func runC20(p *core.Prog, r *core.Result) {
 				continue
 			}
 			nn, known := p.FactsAt(mu).ErrNonNil(errV)
-			if known && !nn && !unlocks(call, mu) && li.MustHoldClass(mu, class, core.ModeW) {
+			if known && !nn && !unlocks(call, mu) && p.MustHoldClassX(mu, class, core.ModeW) {
 				okUpd = true
 			}
 		}
